@@ -100,14 +100,28 @@ pub fn eval(c: &Case, st: &mut Stats, excuse_kf: bool) -> Result<Verdict, String
     }
     // the original's queue order, read off a twin of the prefix that is drained
     let (twin, _) = run_history(&c.prefix, false, false);
+    // (one-unit matches: each pops the queue head, fills one unit and — known finding KF-C04-1 —
+    // re-queues the rest at the tail, so n of them visit the resting orders in queue order without
+    // ever sweeping a deep iceberg)
     let gen_t = UuidGenerator::new(uuid::Uuid::from_u128(0x7717));
-    let drained = with_step_budget(200_000_000, || twin.level.match_order(u64::MAX, OrderId::from_u64(0xD0), &gen_t));
     let mut queue_order: Vec<OrderId> = Vec::new();
-    if let Ok((r, _)) = &drained {
-        for t in r.transactions.as_vec() {
-            if !queue_order.contains(&t.maker_order_id) {
-                queue_order.push(t.maker_order_id);
+    let budget = 100_000 + 40 * twin.pushes;
+    for k in 0..(2 * resting.len() + 8) {
+        if queue_order.len() >= resting.len() {
+            break;
+        }
+        match with_step_budget(budget, || twin.level.match_order(1, OrderId::from_u64(0xD000 + k as u64), &gen_t)) {
+            Ok((r, _)) => {
+                for t in r.transactions.as_vec() {
+                    if !queue_order.contains(&t.maker_order_id) {
+                        queue_order.push(t.maker_order_id);
+                    }
+                }
+                if r.transactions.as_vec().is_empty() {
+                    break;
+                }
             }
+            Err(_) => break,
         }
     }
     let ts_of = |id: &OrderId| it.model.iter().find(|e| e.id == *id).map(|e| e.cur.timestamp());
